@@ -55,19 +55,36 @@ def find(lib):
     return out
 
 
-def trivially_joins(f, a, b, limit=6):
-    """blocks a and b reach a common block through blocks that only contain unit assignments / gotos / drops"""
+def trivially_joins(f, a, b, limit=8):
+    """blocks a and b reach a common block through blocks that only contain unit assignments, plain moves of
+    a value between locals (`return regs` spelled as `_0 = regs; dest = move _0`), gotos and drops — and both
+    ways move the same values (so an early stop yields what exhaustion yields)"""
     def chain(x):
         seen = [x]
+        moves = []
         while len(seen) < limit:
             blk = f.blocks[x]
             t = blk['term']
-            trivial = all(st['s'] == 'assign' and st['rv']['r'] == 'use' and st['rv']['a']['o'] == 'const' and st['rv']['a']['c'].get('ty') == '()' for st in blk['stmts'])
-            if not trivial or t['t'] not in ('goto',):
+            ok = True
+            for st in blk['stmts']:
+                if st['s'] != 'assign':
+                    continue
+                rv = st['rv']
+                if rv['r'] == 'use' and rv['a']['o'] == 'const' and rv['a']['c'].get('ty') == '()':
+                    continue
+                if rv['r'] == 'use' and rv['a']['o'] in ('copy', 'move') and not st['pl']['p']:
+                    moves.append(facts.show(facts.norm(f.rvalue_expr(rv, x))))
+                    continue
+                ok = False
+            if not ok or t['t'] not in ('goto', 'drop'):
                 break
             x = t['to']
             seen.append(x)
-        return seen
-    ca, cb = chain(a), chain(b)
+        return seen, moves
+    (ca, ma), (cb, mb) = chain(a), chain(b)
     common = [x for x in ca if x in cb]
-    return common[0] if common else None
+    if not common:
+        return None
+    if sorted(set(ma)) != sorted(set(mb)):
+        return None
+    return common[0]
